@@ -226,45 +226,37 @@ Definition call_kernel (k : kkind) (xyz : list frame) (boxes : list box) (pairs 
   | Some ts => kernel_times k fx fp (flat_pairs ts) fb (zlen ts) n_atoms (zlen pairs)
   end.
 
-(* the opt=False branches: python loops over frames (or time pairs) and pairs *)
+(* the opt=False branches: python loops over frames (or time pairs) and pairs.  Rows = (frame of atom 1, frame of
+   atom 2); the cell is that of the first.  [None] marks an index error (IndexError in numpy), excluded by the
+   validation; the pair list is non-empty when these functions are reached. *)
+Definition rows_of (xyz : list frame) (times : option (list (Z * Z))) : list (nat * nat) :=
+  match times with
+  | None => map (fun i => (i, i)) (seq 0 (length xyz))
+  | Some ts => map to_natpair ts
+  end.
+(* _distance_mic_t and _distance_t form xyz[t1, p1] - xyz[t2, p2]: the opposite sign *)
+Definition np_sign (times : option (list (Z * Z))) (r : vec) : vec :=
+  match times with None => r | Some _ => vneg r end.
+
 Definition call_numpy (orthogonal : bool) (xyz : list frame) (boxes : list box) (pairs : list (Z * Z))
            (times : option (list (Z * Z))) : option (list outrec) :=
-  let rows : list (nat * nat) :=
-    match times with
-    | None => map (fun i => (i, i)) (seq 0 (length xyz))
-    | Some ts => map to_natpair ts
-    end in
   opt_all (flat_map (fun t : nat * nat =>
-    map (fun pr : Z * Z =>
-      match nth_error xyz (fst t), nth_error xyz (snd t), nth_error boxes (fst t) with
-      | Some f1, Some f2, Some B =>
-          match sep f1 f2 (to_natpair pr) with
-          | Some r =>
-              (* _distance_mic_t forms xyz[a, c] - xyz[b, d]: the opposite sign *)
-              let r := match times with None => r | Some _ => vneg r end in
-              Some (np_pair orthogonal (np_box (transpose9 (box_to_mat B))) r)
-          | None => None
-          end
-      | _, _, _ => None
-      end) pairs) rows).
+    match nth_error xyz (fst t), nth_error xyz (snd t), nth_error boxes (fst t) with
+    | Some f1, Some f2, Some B =>
+        map (fun pr : Z * Z =>
+          option_map (fun r => np_pair orthogonal (np_box (transpose9 (box_to_mat B))) (np_sign times r))
+                     (sep f1 f2 (to_natpair pr))) pairs
+    | _, _, _ => [None]
+    end) (rows_of xyz times)).
 
 Definition plain_numpy (xyz : list frame) (pairs : list (Z * Z)) (times : option (list (Z * Z)))
   : option (list outrec) :=
-  let rows : list (nat * nat) :=
-    match times with
-    | None => map (fun i => (i, i)) (seq 0 (length xyz))
-    | Some ts => map to_natpair ts
-    end in
   opt_all (flat_map (fun t : nat * nat =>
-    map (fun pr : Z * Z =>
-      match nth_error xyz (fst t), nth_error xyz (snd t) with
-      | Some f1, Some f2 =>
-          match sep f1 f2 (to_natpair pr) with
-          | Some r => Some (pair_plain (match times with None => r | Some _ => vneg r end))
-          | None => None
-          end
-      | _, _ => None
-      end) pairs) rows).
+    match nth_error xyz (fst t), nth_error xyz (snd t) with
+    | Some f1, Some f2 =>
+        map (fun pr : Z * Z => option_map (fun r => pair_plain (np_sign times r)) (sep f1 f2 (to_natpair pr))) pairs
+    | _, _ => [None]
+    end) (rows_of xyz times)).
 
 (* compute_displacements / compute_distances_core / compute_distances_t, statement by statement:
      1. index validation (atoms; for _t also the frame indices)      -> ValueError
@@ -293,3 +285,52 @@ Definition api_call (a : api) (opt periodic : bool) (n_atoms : Z) (xyz : list fr
       if opt then Ok shape (call_kernel KPlain xyz [] pairs tm n_atoms)
       else Ok shape (plain_numpy xyz pairs tm)
   end.
+
+(* ------------------------------------------------------------------ loop skeleton of a kernel, as data
+   The translator (harness/props/C05.py) reads these facts off the C source text on every run and writes them to
+   Gen/PBCLoops.v; PBC/KernelTie.v proves them equal to [skel_of], which is built from the constants the loops
+   above use.  Counts are named by their POSITION among the last three int parameters of the C function
+   (rows = n_frames / n_times, atoms, pairs). *)
+Inductive kcount := CRows | CAtoms | CPairs.
+(* an index expression  m * [n_atoms *] arr[stride*v + add] *)
+Record kindex := mk_kindex { ix_mult : Z; ix_natoms : bool; ix_stride : Z; ix_add : Z }.
+Record kskel := mk_kskel {
+  sk_outer : Z * kcount;                    (* for (int i = 0; i < rows; i++) *)
+  sk_inner : Z * kcount;                    (* for (int j = 0; j < pairs; j++) *)
+  sk_pair_off : kindex * kindex;            (* offsets of the two atoms inside a frame, from pairs[] *)
+  sk_time_off : option (kindex * kindex);   (* _t: offsets of the two frames inside xyz, from times[] *)
+  sk_xyz_adv : option (Z * bool);           (* xyz += n_atoms*3 after the pair loop: (3, uses n_atoms) *)
+  sk_box_adv : option Z;                    (* box_matrix += 9 after the pair loop *)
+  sk_box_off : option (kindex * bool * bool); (* _t: box_offset = times[2*i+0]*9; += before the loads; -= after the pair loop *)
+  sk_image : option ((Z * Z) * (Z * Z) * (Z * Z));  (* the x, y, z image loops, x outermost *)
+  sk_stores : list nat * nat                (* temp[k] stored through displacement_out++ in this order; number of distance_out++ *)
+}.
+Definition skel_of (k : kkind) (timed : bool) : kskel :=
+  mk_kskel (0, CRows) (0, CPairs)
+    (mk_kindex xyz_stride false pair_stride 0, mk_kindex xyz_stride false pair_stride 1)
+    (if timed then Some (mk_kindex xyz_stride true pair_stride 0, mk_kindex xyz_stride true pair_stride 1) else None)
+    (if timed then None else Some (xyz_stride, true))
+    (match k, timed with KPlain, _ => None | _, true => None | _, false => Some box_stride end)
+    (match k, timed with KPlain, _ => None | _, false => None
+                       | _, true => Some (mk_kindex box_stride false pair_stride 0, true, true) end)
+    (match k with KTric => Some ((image_lo, image_hi), (image_lo, image_hi), (image_lo, image_hi)) | _ => None end)
+    ([0; 1; 2]%nat, 1%nat).
+
+(* distance.py, API level: order of the top-level steps, shape of the empty result *)
+Inductive gstep := GValidatePairs | GValidateTimes | GEmptyReturn | GPeriodicBranch | GPlainBranch.
+Inductive gdim := DLenXyz | DLenTimes | DLit (z : Z).
+Definition api_steps (a : api) : list gstep :=
+  match a with
+  | ApiDistancesT => [GValidatePairs; GValidateTimes; GEmptyReturn; GPeriodicBranch; GPlainBranch]
+  | _ => [GValidatePairs; GEmptyReturn; GPeriodicBranch; GPlainBranch]
+  end.
+Definition api_empty_shape (a : api) : list gdim :=
+  match a with
+  | ApiDisplacements => [DLenXyz; DLit 0; DLit 3]
+  | ApiDistancesCore => [DLenXyz; DLit 0]
+  | ApiDistancesT => [DLenTimes; DLit 0]
+  end.
+Definition gdim_val (n_frames n_times : Z) (d : gdim) : Z :=
+  match d with DLenXyz => n_frames | DLenTimes => n_times | DLit z => z end.
+(* _is_orthorhombic: the (row, column) entries of the box matrix that must all be zero *)
+Definition offdiag_zero (B : box) (ij : nat * nat) : bool := mget (box_to_mat B) (3 * fst ij + snd ij) =? 0.
